@@ -14,6 +14,7 @@ def run(tier, seed):
     vlib.require(rep2["nontrivial"] > 50, "replay c01d too small")
     nl, rq = (8, 60) if tier == "quick" else (80, 80)
     netcommon.corpus_stage(v, wd, seed, nl, rq)
+    netcommon.random_lists(v, wd, seed + 0, 300 if tier == "quick" else 3000)
     return v.finish("model_checking", "lists of <= %d rules" % k, exhaustive=True)
 
 
